@@ -80,6 +80,13 @@ fn main() {
             }
             props::c04::child_main(&args[2], args[3].parse().unwrap_or(0), args[4].parse().unwrap_or(0), &args[5])
         }
+        "c20-child" => {
+            if args.len() < 5 {
+                usage();
+            }
+            let warm = if args.len() >= 8 { Some((args[5].as_str(), args[6].as_str(), args[7].as_str())) } else { None };
+            props::c20::child_main(&args[2], &args[3], &args[4], warm)
+        }
         "golden-make" => {
             props::c02::golden_make();
             inst::cleanup_scratch();
